@@ -19,6 +19,7 @@ class Scenario:
         self.pagesize = pagesize
         self.procs = {}
         self.fifos = {}
+        self.started = []
         if existing:
             # created by an undisturbed worker first
             self.start("P0", hold=0)
@@ -29,6 +30,7 @@ class Scenario:
         env["LD_PRELOAD"] = crashcheck.SHIM
         env["JSHIM_PATH"] = "jverif-proc.db"
         env["JSHIM_LOG"] = "/dev/null"
+        self.started.append(wid)
         extra = []
         if park:
             fifo = os.path.join(self.dir, "fifo-" + wid)
@@ -92,6 +94,14 @@ class Scenario:
 
 
 def scenarios(scratch, quick, r):
+    """yields (name, kind, lines); the header line names the workers that were started (`workers=`)"""
+    for name, kind, lines, started in _scenarios(scratch, quick, r):
+        lines = list(lines)
+        lines[0] = lines[0] + " workers=" + ",".join(started)
+        yield name, kind, lines
+
+
+def _scenarios(scratch, quick, r):
     """yields (name, kind, lines) where kind is 'existing' or 'create'"""
     crashcheck.ensure_shim()
     # E1..: an existing file; the first opener is parked at a call inside / at the end of its stay
@@ -105,7 +115,7 @@ def scenarios(scratch, quick, r):
             time.sleep(0.12)
             sc.release("P1")
             hung = sc.wait_all()
-            yield (sc.name, "existing", ["scenario %s existing parked=%s hung=%s" % (sc.name, parked, ",".join(hung) or "-")] + sc.observations())
+            yield (sc.name, "existing", ["scenario %s existing parked=%s hung=%s" % (sc.name, parked, ",".join(hung) or "-")] + sc.observations(), [w for w in sc.started if w != 'P0'])
     # G: the holder's commit grows the file while a late opener is already waiting inside `open`
     # (parked once `open` has returned the holder has not grown the file yet; at write / fsync it has)
     for call, nth in [("inside", 1), ("write", 1), ("fsync", 1)]:
@@ -116,14 +126,14 @@ def scenarios(scratch, quick, r):
         time.sleep(0.15)
         sc.release("P1")
         hung = sc.wait_all(timeout=60)
-        yield (sc.name, "existing", ["scenario %s existing parked=%s hung=%s" % (sc.name, parked, ",".join(hung) or "-")] + sc.observations())
+        yield (sc.name, "existing", ["scenario %s existing parked=%s hung=%s" % (sc.name, parked, ",".join(hung) or "-")] + sc.observations(), [w for w in sc.started if w != 'P0'])
     # random start offsets and hold times, no parking
     for k in range(3 if quick else 20):
         sc = Scenario(scratch, "e-rand%d" % k, existing=True)
         for j in range(3):
             sc.start("P%d" % (1 + j), hold=r.randrange(0, 40), delay=r.randrange(0, 30))
         hung = sc.wait_all()
-        yield (sc.name, "existing", ["scenario %s existing parked=- hung=%s" % (sc.name, ",".join(hung) or "-")] + sc.observations())
+        yield (sc.name, "existing", ["scenario %s existing parked=- hung=%s" % (sc.name, ",".join(hung) or "-")] + sc.observations(), [w for w in sc.started if w != 'P0'])
     # N: the file does not exist yet; the creator is parked between create and lock
     for call, nth in [("open", 1), ("write", 1), ("fsync", 1)]:
         sc = Scenario(scratch, "n-%s%d" % (call, nth), existing=False)
@@ -133,7 +143,7 @@ def scenarios(scratch, quick, r):
         time.sleep(0.12)
         sc.release("P1")
         hung = sc.wait_all()
-        yield (sc.name, "create", ["scenario %s create parked=%s@%s%d hung=%s" % (sc.name, parked, call, nth, ",".join(hung) or "-")] + sc.observations())
+        yield (sc.name, "create", ["scenario %s create parked=%s@%s%d hung=%s" % (sc.name, parked, call, nth, ",".join(hung) or "-")] + sc.observations(), [w for w in sc.started if w != 'P0'])
     # H: the holder is the process that created the file; it is fully open (it has committed) when the
     # second opener arrives
     for k, hold in enumerate([150, 400] if quick else [50, 150, 400, 800]):
@@ -142,4 +152,4 @@ def scenarios(scratch, quick, r):
         inside = sc.wait_logged("P1", "worked")
         sc.start("P2", hold=2)
         hung = sc.wait_all()
-        yield (sc.name, "create", ["scenario %s create parked=%s@held hung=%s" % (sc.name, inside, ",".join(hung) or "-")] + sc.observations())
+        yield (sc.name, "create", ["scenario %s create parked=%s@held hung=%s" % (sc.name, inside, ",".join(hung) or "-")] + sc.observations(), [w for w in sc.started if w != 'P0'])
